@@ -43,6 +43,10 @@ func (t *twinsJSON) Settings() Settings {
 
 func (t *twinsJSON) NextScenario() (Scenario, error) {
 	t.mut.Lock()
+	if t.scenario >= len(t.Scenarios) {
+		t.mut.Unlock()
+		return nil, io.EOF
+	}
 	raw := t.Scenarios[t.scenario]
 	t.scenario++
 	t.mut.Unlock()
